@@ -186,3 +186,59 @@ def run(ctx: Ctx, inst_cls, bld_cls) -> bool:
                       f"`{name}` changes (or returns) the {label} it was called on, or an object both share: a later derivation or run of the "
                       f"earlier {label} sees the change")
     return decided
+
+
+def run_plumbing(ctx: Ctx, inst_cls) -> bool:
+    """R-C28.3 (semantic form): `_run_instance` hands the backend this configuration's own options, and leaves them alone.
+
+    Interpreted with every option holding a distinct token and `self._instance.run_shots` as a recorder: the seed and the
+    simulator that reach the backend are this configuration's `_seed` / `_simulator` objects, every other keyword that is
+    passed carries the option of the same meaning, and the configuration (options, simulator) is unchanged afterwards."""
+    idx = ctx.idx
+    f = inst_cls.methods.get("_run_instance")
+    key = f"{f.qualname}#passes-configured-seed-and-simulator"
+    table = {"simulator": "_simulator", "runtime": "_runtime", "n_shots": "_shots", "event_hook": "_event_hook", "error_model": "_error_model", "verbose": "_verbose",
+             "timeout": "_timeout", "results_logfile": "_results_logfile", "random_seed": "_seed", "shot_offset": "_shot_offset", "shot_increment": "_shot_increment",
+             "n_processes": "_n_processes"}
+    fields = sorted(set(table.values()) | {"_display_progress_bar"})
+    sim = _new("simulator", "Quest", random_seed=None)
+    opts = _new("options", "_Options", **{k: (sim if k == "_simulator" else _new(f"value_of{k}", "object")) for k in fields})
+    seen: dict = {}
+
+    def run_shots(r, a, kw):
+        seen.update(kw)
+        seen["__positional__"] = list(a)
+        return _new("shot_stream", "Iterator")
+    run_shots.__gsa_kwargs__ = True
+    selene = _new("selene", "SeleneInstance")
+    selene.attrs["__methods__"] = {"run_shots": run_shots}
+    nq = _new("n_qubits_value", "object")
+    me = _new("instance", "EmulatorInstance", _instance=selene, _n_qubits=nq, _options=opts)
+    me.attrs["__classes__"] = inst_cls.mro()
+    before = _snapshot(me, depth=4)
+    try:
+        out = PyEval(idx, f.module.name, max_depth=8).run(f.node.body, {f.node.args.args[0].arg: me})
+    except Unsupported as e:
+        ctx.undecided("R-C28.3", key, f.where, str(e))
+        return False
+    except Raised as e:
+        ctx.violation("R-C28.3", key, f.where, {"problem": f"raises {e.cls or e}"}, "running a configuration fails")
+        return True
+    problems = []
+    if not seen:
+        problems.append("the backend's run_shots is never called")
+    for kw, field in table.items():
+        if kw in seen and seen[kw] is not opts.attrs[field]:
+            problems.append(f"`{kw}` carries {seen[kw]!r} instead of this configuration's {field}")
+    for must in ("random_seed", "simulator"):
+        if seen and must not in seen:
+            problems.append(f"`{must}` is not handed to the backend")
+    if "n_qubits" in seen and seen["n_qubits"] is not nq:
+        problems.append("`n_qubits` carries another value than the configuration's")
+    if _snapshot(me, depth=4) != before:
+        problems.append("running changes the configuration (or an object it shares: options, simulator)")
+    if out[0] == "raise":
+        problems.append(f"raises {out[1]}")
+    ctx.check(not problems, "R-C28.3", key, f.where, {"keywords_seen": sorted(k for k in seen if not k.startswith("__")), "problems": problems[:4]},
+              "running does not use the configuration's own seed/simulator (or changes the configuration while running)")
+    return True
